@@ -125,11 +125,12 @@ Proof.
   rewrite Ztrunc_IZR. unfold fmin. destruct (signed i); lia.
 Qed.
 
-(* the float -> integer conversion inverts the integer -> float conversion wherever that one is exact *)
-Lemma roundtrip m m' i z : bits i <= prec -> in_range i z -> bind (to_f m i z) (to_i m' i) = Ok z.
+(* the float -> integer conversion inverts the integer -> float conversion wherever that one is exact:
+   for each single value whose conversion did not round ... *)
+Lemma roundtrip_pointwise m m' i z f : in_range i z -> to_f m i z = Ok f ->
+  B2R f = (IZR (amp i z) / fscale i)%R -> to_i m' i f = Ok z.
 Proof.
-  intros Hb Hr. destruct (to_f_ok m i z Hr) as (f & E & Fin & _).
-  pose proof (to_float_exact m i z f Hb Hr E) as V. rewrite E. cbn [bind].
+  intros Hr E V. destruct (to_f_ok m i z Hr) as (g & G & Fin & _). rewrite E in G. inversion G; subst g.
   pose proof (fscale_pos i) as P. apply in_range_amp in Hr as Ha.
   assert (D : in_domain prec emax f).
   { split; [exact Fin|]. rewrite V, fscale_half. rewrite fscale_half in P.
@@ -138,6 +139,14 @@ Proof.
     - apply Rmult_lt_reg_r with (IZR (half i)); [exact P|]. unfold Rdiv. rewrite Rmult_assoc, Rinv_l by lra. lra. }
   rewrite to_i_ok by exact D. f_equal. unfold f2i_val. rewrite V.
   unfold Rdiv. rewrite Rmult_assoc, Rinv_l, Rmult_1_r by lra. rewrite Ztrunc_IZR, amp_offset. unfold offset. lia.
+Qed.
+
+(* ... hence for every value of a format that fits the mantissa *)
+Lemma roundtrip m m' i z : bits i <= prec -> in_range i z -> bind (to_f m i z) (to_i m' i) = Ok z.
+Proof.
+  intros Hb Hr. destruct (to_f_ok m i z Hr) as (f & E & _ & _).
+  pose proof (to_float_exact m i z f Hb Hr E) as V. rewrite E. cbn [bind].
+  now apply (roundtrip_pointwise m m' i z f).
 Qed.
 End Consequences.
 
@@ -188,6 +197,9 @@ Proof. inst to_int_minus_one. Qed.
 Lemma roundtrip_f32 : forall m m' i z, bits i <= 24 -> in_range i z ->
   bind (to_sample_f32_of_int m i z) (to_sample_int_of_f32 m' i) = Ok z.
 Proof. inst roundtrip. Qed.
+Lemma roundtrip_f32_pointwise : forall m m' i z (f : F32.t), in_range i z -> to_sample_f32_of_int m i z = Ok f ->
+  B2R f = (IZR (amp i z) / fscale i)%R -> to_sample_int_of_f32 m' i f = Ok z.
+Proof. exact (roundtrip_pointwise 24 128 _ _ to_f32_correct of_f32_correct). Qed.
 
 Lemma to_f64_value : forall m i z, in_range i z ->
   exists f, to_sample_f64_of_int m i z = Ok f /\ is_finite f = true /\
@@ -216,6 +228,9 @@ Proof. inst to_int_minus_one. Qed.
 Lemma roundtrip_f64 : forall m m' i z, bits i <= 53 -> in_range i z ->
   bind (to_sample_f64_of_int m i z) (to_sample_int_of_f64 m' i) = Ok z.
 Proof. inst roundtrip. Qed.
+Lemma roundtrip_f64_pointwise : forall m m' i z (f : F64.t), in_range i z -> to_sample_f64_of_int m i z = Ok f ->
+  B2R f = (IZR (amp i z) / fscale i)%R -> to_sample_int_of_f64 m' i f = Ok z.
+Proof. exact (roundtrip_pointwise 53 1024 _ _ to_f64_correct of_f64_correct). Qed.
 
 
 (* ---- f32 <-> f64 ---- *)
